@@ -1047,7 +1047,7 @@ where
             &mut socket,
             &mut read_buffer,
             self.max_pdu_length,
-            self.strict,
+            false, // the negotiated maximum only binds P-DATA-TF PDUs
         );
         // If we're compiling with the sync-tls feature, check to see if the error
         // may have been caused by the client associating with TLS but the server
@@ -1130,7 +1130,7 @@ where
             &mut tls_stream,
             &mut read_buffer,
             self.max_pdu_length,
-            self.strict,
+            false, // the negotiated maximum only binds P-DATA-TF PDUs
         )?;
         let mut write_buffer: Vec<u8> =
             Vec::with_capacity((DEFAULT_MAX_PDU + PDU_HEADER_SIZE) as usize);
@@ -1523,7 +1523,7 @@ where
                 &mut socket,
                 &mut read_buffer,
                 self.max_pdu_length,
-                self.strict,
+                false, // the negotiated maximum only binds P-DATA-TF PDUs
             )
             .await
             {
@@ -1621,7 +1621,7 @@ where
                 &mut socket,
                 &mut read_buffer,
                 self.max_pdu_length,
-                self.strict,
+                false, // the negotiated maximum only binds P-DATA-TF PDUs
             )
             .await?;
 
